@@ -3,28 +3,119 @@ from framework.registry import target, job, PROPS, COMMON_ASSUME
 # ---------------------------------------------------------------------------
 # C14 run-time configuration is equivalent to compile-time configuration
 # ---------------------------------------------------------------------------
-# One binary 'c14' (8 translation units, each < 60 s per flavour):
-#   c14_config.cpp            main, dispatch, documentation pass
-#   c14_eq_<coarsening>.cpp   9 amg<B, C, R> cells each against the run-time wrappers
+# Binary 'c14' (8 translation units, each 15-25 s plain / < 60 s asan):
+#   c14_config.cpp            main, dispatch, documentation pass (docs/components/*.rst)
+#   c14_eq_<coarsening>.cpp   9 amg<B, C, R> cells each against the run-time wrappers (36 cells)
 #   c14_eq_solvers.cpp        9 solvers, runtime::preconditioner classes, make_solver compositions
 #   c14_tables.cpp            parameter table over every serial params struct
 #   c14_rt_misc.cpp           enumeration strings, unknown keys through the run-time classes
-# plus 'c14_mpi' (parameter table of the MPI structs, built with mpicxx, run as a singleton) and one tiny
-# target per compile probe.
+# Binary 'c14_mpi': parameter table + enumerations of the MPI structs (mpicxx; only params objects are
+# constructed, so it runs as a singleton without mpirun).
+# One tiny target per compile probe (item 4): 'c14_probe_<component>', job with compile_probe set.
+#
+# Oracle notes (why nothing here is stricter than the property text):
+#  * bitwise equality is demanded between two executions of the same binary, same thread count (1);
+#  * the workload avoids rows without negative off-diagonals so that finding F3 (ruge_stuben reads
+#    unwritten strength values; heap-fill dependent) cannot masquerade as a C14 difference;
+#  * parameters that are handed over by pointer (nullspace.B/cols/rows, cpr_drs.weights, schur pmask,
+#    subdomain_deflation.def_vec) are checked for import only: the library copies the pointee and cannot
+#    write the pointer back; they are listed in the observation 'pointer_params_not_exported_by_design'
+#    and not treated as violations of "identity on value parameters";
+#  * documentation coverage (docs pass) is an observation, never a violation.
 C14_SRC = ['harness/c14_config.cpp', 'harness/c14_eq_aggregation.cpp', 'harness/c14_eq_smoothed_aggregation.cpp',
            'harness/c14_eq_smoothed_aggr_emin.cpp', 'harness/c14_eq_ruge_stuben.cpp', 'harness/c14_eq_solvers.cpp',
            'harness/c14_tables.cpp', 'harness/c14_rt_misc.cpp']
 target('c14', C14_SRC)
+target('c14_mpi', ['harness/c14_mpi.cpp'])
+
+# component -> (header, params type[, mpi])
+_S = 'amgcl/solver/'; _R = 'amgcl/relaxation/'; _C = 'amgcl/coarsening/'
+C14_PROBES = [
+    ('solver.cg',          _S + 'cg.hpp',         'amgcl::solver::cg<B>::params'),
+    ('solver.bicgstab',    _S + 'bicgstab.hpp',   'amgcl::solver::bicgstab<B>::params'),
+    ('solver.bicgstabl',   _S + 'bicgstabl.hpp',  'amgcl::solver::bicgstabl<B>::params'),
+    ('solver.gmres',       _S + 'gmres.hpp',      'amgcl::solver::gmres<B>::params'),
+    ('solver.lgmres',      _S + 'lgmres.hpp',     'amgcl::solver::lgmres<B>::params'),
+    ('solver.fgmres',      _S + 'fgmres.hpp',     'amgcl::solver::fgmres<B>::params'),
+    ('solver.idrs',        _S + 'idrs.hpp',       'amgcl::solver::idrs<B>::params'),
+    ('solver.richardson',  _S + 'richardson.hpp', 'amgcl::solver::richardson<B>::params'),
+    ('solver.preonly',     _S + 'preonly.hpp',    'amgcl::solver::preonly<B>::params'),
+    ('relaxation.damped_jacobi', _R + 'damped_jacobi.hpp', 'amgcl::relaxation::damped_jacobi<B>::params'),
+    ('relaxation.gauss_seidel',  _R + 'gauss_seidel.hpp',  'amgcl::relaxation::gauss_seidel<B>::params'),
+    ('relaxation.spai0',         _R + 'spai0.hpp',         'amgcl::relaxation::spai0<B>::params'),
+    ('relaxation.spai1',         _R + 'spai1.hpp',         'amgcl::relaxation::spai1<B>::params'),
+    ('relaxation.chebyshev',     _R + 'chebyshev.hpp',     'amgcl::relaxation::chebyshev<B>::params'),
+    ('relaxation.ilu0',          _R + 'ilu0.hpp',          'amgcl::relaxation::ilu0<B>::params'),
+    ('relaxation.iluk',          _R + 'iluk.hpp',          'amgcl::relaxation::iluk<B>::params'),
+    ('relaxation.ilup',          _R + 'ilup.hpp',          'amgcl::relaxation::ilup<B>::params'),
+    ('relaxation.ilu_solve_builtin', _R + 'detail/ilu_solve.hpp', 'amgcl::relaxation::detail::ilu_solve<B>::params'),
+    ('relaxation.ilu_solve_generic', _R + 'detail/ilu_solve.hpp', 'amgcl::relaxation::detail::ilu_solve<OtherBackend>::params'),
+    ('coarsening.aggregation',          _C + 'aggregation.hpp',          'amgcl::coarsening::aggregation<B>::params'),
+    ('coarsening.smoothed_aggregation', _C + 'smoothed_aggregation.hpp', 'amgcl::coarsening::smoothed_aggregation<B>::params'),
+    ('coarsening.smoothed_aggr_emin',   _C + 'smoothed_aggr_emin.hpp',   'amgcl::coarsening::smoothed_aggr_emin<B>::params'),
+    ('coarsening.ruge_stuben',          _C + 'ruge_stuben.hpp',          'amgcl::coarsening::ruge_stuben<B>::params'),
+    ('coarsening.plain_aggregates',     _C + 'plain_aggregates.hpp',     'amgcl::coarsening::plain_aggregates::params'),
+    ('coarsening.pointwise_aggregates', _C + 'pointwise_aggregates.hpp', 'amgcl::coarsening::pointwise_aggregates::params'),
+    ('coarsening.nullspace_params',     _C + 'tentative_prolongation.hpp', 'amgcl::coarsening::nullspace_params'),
+    ('amg',                 'amgcl/amg.hpp',         'AMG0::params'),
+    ('make_solver',         'amgcl/make_solver.hpp', 'MS0::params'),
+    ('preconditioner.cpr',     'amgcl/preconditioner/cpr.hpp',     'amgcl::preconditioner::cpr<AMG0,REL0>::params'),
+    ('preconditioner.cpr_drs', 'amgcl/preconditioner/cpr_drs.hpp', 'amgcl::preconditioner::cpr_drs<AMG0,REL0>::params'),
+    ('preconditioner.schur_pressure_correction', 'amgcl/preconditioner/schur_pressure_correction.hpp', 'amgcl::preconditioner::schur_pressure_correction<MS0,MS1>::params'),
+    ('preconditioner.dummy',   'amgcl/preconditioner/dummy.hpp',   'amgcl::preconditioner::dummy<B>::params'),
+    ('backend.block_crs',      'amgcl/backend/block_crs.hpp',      'amgcl::backend::block_crs<double>::params'),
+    ('mpi.amg',                'amgcl/mpi/amg.hpp',                'MAMG0::params', True),
+    ('mpi.make_solver',        'amgcl/mpi/make_solver.hpp',        'MMS0::params', True),
+    ('mpi.coarsening.aggregation', 'amgcl/mpi/coarsening/aggregation.hpp', 'amgcl::mpi::coarsening::aggregation<B>::params', True),
+    ('mpi.coarsening.smoothed_aggregation', 'amgcl/mpi/coarsening/smoothed_aggregation.hpp', 'amgcl::mpi::coarsening::smoothed_aggregation<B>::params', True),
+    ('mpi.coarsening.pmis',    'amgcl/mpi/coarsening/pmis.hpp',    'amgcl::mpi::coarsening::pmis<B>::params', True),
+    ('mpi.partition.merge',    'amgcl/mpi/partition/merge.hpp',    'amgcl::mpi::partition::merge<B>::params', True),
+    ('mpi.cpr',                'amgcl/mpi/cpr.hpp',                'amgcl::mpi::cpr<MAMG0,MREL0>::params', True),
+    ('mpi.schur_pressure_correction', 'amgcl/mpi/schur_pressure_correction.hpp', 'amgcl::mpi::schur_pressure_correction<MMS0,MMS0>::params', True),
+    ('mpi.subdomain_deflation', 'amgcl/mpi/subdomain_deflation.hpp', 'amgcl::mpi::subdomain_deflation<MAMG0,amgcl::mpi::solver::cg<B>>::params', True),
+]
+for _p in C14_PROBES:
+    _fl = ['-DC14_PROBE_HEADER=<%s>' % _p[1], '-DC14_PROBE_TYPE=%s' % _p[2]] + (['-DC14_PROBE_MPI'] if len(_p) > 3 else [])
+    target('c14_probe_' + _p[0], ['harness/c14_probe.cpp'], flags=_fl)
+# the two components whose export is a listed finding (F10, F7): the probe is the table itself, with the export step
+target('c14_probe_relaxation.ilut', ['harness/c14_probe_ilut.cpp'])
+target('c14_probe_deflated_solver', ['harness/c14_probe_deflated.cpp'])
 
 def c14_jobs(tier):
     q = tier == 'quick'
     js = [job('config-plain', 'c14', 'plain', threads=1, shards=8, timeout=3600),
-          job('config-asan', 'c14', 'asan', threads=1, shards=8, timeout=7200)]
+          job('config-asan', 'c14', 'asan', threads=1, shards=8, timeout=7200),
+          job('mpi-params-plain', 'c14_mpi', 'mpi-plain', threads=1, timeout=1800)]
+    if not q:
+        js.append(job('mpi-params-asan', 'c14_mpi', 'mpi-asan', threads=1, timeout=3600, noleak=True))
+    for p in C14_PROBES:
+        js.append(job('probe-' + p[0], 'c14_probe_' + p[0], 'mpi-plain' if len(p) > 3 else 'plain', compile_probe=p[0], compile_only=True))
+    for comp, tgt in (('relaxation.ilut', 'c14_probe_relaxation.ilut'), ('deflated_solver', 'c14_probe_deflated_solver')):
+        js.append(job('probe-' + comp, tgt, 'plain', compile_probe=comp, compile_only=True))
+        js.append(job('table-' + comp, tgt, 'plain', threads=1, timeout=1800))     # runs only when the probe compiles
     return js
 
 PROPS['C14'] = dict(
     level='exploration', jobs=c14_jobs,
-    rule='TODO',
-    min_nontrivial=dict(quick=100, thorough=300),
-    assumptions=COMMON_ASSUME,
-    technique='TODO', level_text='TODO', level_note='TODO')
+    rule=('equiv_amg: case idx -> cell (coarsening, relaxation) = idx mod 36, seeded M-matrix (5/7/9-point diffusion, upwind convection-diffusion, 80-580 unknowns), '
+          'every params field of amg/coarsening/relaxation drawn at random (non-default); non-trivial = hierarchy has >= 2 levels and the extracted operator is finite and non-zero. '
+          'equiv_solver / equiv_precond / equiv_make_solver: same with random solver parameters; non-trivial = at least one iteration moved x. '
+          'param_table: one case per (params struct, repetition); each imported field counts as one non-trivial sub-case. '
+          'enum_strings: one case per enumeration; each accepted documented name counts. unknown_runtime: one case per random run-time tree; each injected level counts. '
+          'distinct = distinct (sub-check, descriptor) hash.'),
+    exhaustive_note=('all 36 (coarsening, relaxation) cells, all 9 solvers, all 4 preconditioner classes; every member of every params struct in the table '
+                     '(45 serial + 11 MPI structs); every documented enumeration name of the 8 enumeration types; every nesting level for unknown keys; '
+                     '44 compile probes'),
+    min_nontrivial=dict(quick=800, thorough=3000),
+    require_obs=dict(quick=['table_struct_cases', 'invalid_enum_strings_tried', 'unknown_runtime_levels', 'documented_members'],
+                     thorough=['table_struct_cases', 'invalid_enum_strings_tried', 'unknown_runtime_levels', 'documented_members']),
+    assumptions=COMMON_ASSUME + ['Boost.PropertyTree text round trip of arithmetic values (max_digits10) is trusted',
+                                 'pointer-valued parameters are checked for import only (the library copies the pointee)'],
+    technique=('differential oracle: compile-time composed classes with field-by-field filled params vs run-time wrappers fed the same values through a property tree, '
+               'bitwise comparison of the extracted preconditioner matrix / (iterations, residual, x); member-table oracle for import, isolation, export, '
+               're-import and unknown-key reporting with the unknown-parameter hook redefined; enumeration-string mutation; per-struct compile probes; ASan/UBSan repeat'),
+    level_text=('Every cell of the run-time dispatch tables is executed against its compile-time twin on seeded systems with random non-default parameters and must agree bitwise; '
+                'every member of every params struct is set through a tree, read back, exported, re-imported and isolated; unknown keys are injected at every nesting level; '
+                'invalid enumeration strings must throw. Held means no observed execution deviated; it is not a proof for unobserved parameter values.'),
+    level_note=('back ends other than builtin<double>, block value types and the GPU/VexCL params structs are not covered; MPI structs are checked at the params level only '
+                '(run-time vs compile-time MPI solves belong to C12); pointer parameters are import-only'))
